@@ -117,85 +117,92 @@ theorem rel_after (cfg : Cfg) (evs : List Ev) (h : InDomain cfg evs = true) :
 
 /-! ## 1. `deferring_silent`: while a family is deferred no change for it is emitted -/
 
-/-- (all states) Every RIB mutator — not only `insert` — returns no change for a deferring family. -/
-theorem deferring_silent (t : Tabs) (p : Peer) (f : Fam) (n : Nat) (h : (t f).deferring = true) :
-    (insert t p f n).2 = [] ∧ (remove t p f n).2 = [] ∧ (dropPeer t p f).2 = [] := by
-  refine ⟨by simp [insert, h], ?_, by simp [dropPeer, h]⟩
-  by_cases hm : (n, p) ∈ (t f).paths <;> simp [remove, hm, h]
+/-- (all states) Every RIB mutator — not only `insert`: withdrawal, peer drop, GR / LLGR stale marking,
+    stale purge, next-hop validity — returns no change for a deferring family. -/
+theorem deferring_silent (inv : List Peer) (t : Tabs) (p : Peer) (f : Fam) (n : Nat)
+    (h : (t f).deferring = true) :
+    (insert inv t p f n).2 = [] ∧ (remove inv t p f n).2 = [] ∧ (dropPeer inv t p f).2 = [] ∧
+    (restale inv t p f).2 = [] ∧ (restaleLlgr inv t p f).2 = [] ∧ (∀ b, (purge b inv t p f).2 = []) ∧
+    nhvFam inv t p f = [] := by
+  refine ⟨by simp [insert, h], ?_, by simp [dropPeer, h], ?_, ?_, ?_, by simp [nhvFam, h]⟩
+  · by_cases hm : (n, p) ∈ (t f).paths <;> simp [remove, hm, h]
+  · rcases restale_eq inv t p f with ⟨_, he⟩ | ⟨_, he⟩ <;> rw [he] <;> simp [h]
+  · rcases restaleLlgr_eq inv t p f with ⟨_, he⟩ | ⟨_, he⟩ <;> rw [he] <;> simp [h]
+  · intro b; cases b <;> simp [purge, dropPeer, h]
+
+/-- (all states, every composite mutator) `unregister_peer(addr, drop_families, stale_families)` as
+    `finish_session` calls it returns no change for a deferring family, and leaves every flag. -/
+theorem unregister_silent (inv : List Peer) (p : Peer) (gr fs : List Fam) (t : Tabs) :
+    (∀ c ∈ (unregister inv p gr fs t).2, (t c.fam).deferring = false) ∧
+    ∀ g, ((unregister inv p gr fs t).1 g).deferring = (t g).deferring :=
+  ⟨(unregister_tabOp inv p gr fs t).quiet, (unregister_tabOp inv p gr fs t).flag⟩
+
+/-- (all states, all route-only events: insert, withdraw, drop, stale, LLGR stale, purges, next-hop
+    validity, the end of a helper's session) no change is distributed for a family whose deferral
+    flag is set, and the flags stay as they are. -/
+theorem route_event_silent (s : St) (e : Ev) (h : isRd e = false) :
+    (∀ c ∈ (step s e).2.changes, (s.tabs c.fam).deferring = false) ∧
+    (∀ g, ((step s e).1.tabs g).deferring = (s.tabs g).deferring) ∧
+    (step s e).2.outs = [] ∧ (step s e).1.sd = s.sd := by
+  obtain ⟨hop, hobs, hsd, _, _⟩ := step_tabOp s e h
+  exact ⟨hop.quiet, hop.flag, by rw [hobs]; rfl, hsd⟩
 
 /-- (all states, all events) After a step, the family of every change the step emitted is not
     deferring. -/
 theorem deferring_silent_step (s : St) (e : Ev) (c : Change) (hc : c ∈ (step s e).2.changes) :
     ((step s e).1.tabs c.fam).deferring = false := by
-  cases e with
-  | rd i =>
-      cases hsd : s.sd with
-      | none => simp [step, hsd, obsOf] at hc
-      | some m =>
-          simp only [step, hsd, obsOf] at hc ⊢
-          obtain ⟨h1, h2, _, _⟩ := applyOuts_spec { s with sd := some (process m i).1 } (process m i).2
-          obtain ⟨_, e2, e3⟩ := endDeferralFamilies_spec (relFams (process m i).2) s.tabs
-          rw [h2, e3] at hc
-          rw [h1, e2, if_pos (mem_flatMap_announce_fam hc)]
-  | ins p f n =>
-      simp only [step, obsOf, insert] at hc ⊢
-      by_cases hd : (s.tabs f).deferring = true
-      · simp [hd] at hc
-      · simp only [hd, Bool.false_eq_true, ↓reduceIte, List.mem_singleton] at hc
-        subst hc; simpa using hd
-  | rm p f n =>
-      simp only [step, obsOf, remove] at hc ⊢
-      by_cases hm : (n, p) ∈ (s.tabs f).paths
-      · by_cases hd : (s.tabs f).deferring = true
-        · simp [hm, hd] at hc
-        · simp only [List.contains_iff_mem, hm, ↓reduceIte, hd, Bool.false_eq_true, List.mem_singleton] at hc
-          subst hc; simpa [hm] using hd
-      · simp [hm] at hc
-  | drop p f =>
-      simp only [step, obsOf, dropPeer] at hc ⊢
-      by_cases hd : (s.tabs f).deferring = true
-      · simp [hd] at hc
-      · simp only [hd, Bool.false_eq_true, ↓reduceIte, List.mem_map] at hc
-        obtain ⟨n, _, rfl⟩ := hc; simpa using hd
+  by_cases h : isRd e = false
+  · obtain ⟨hq, hf, _, _⟩ := route_event_silent s e h
+    rw [hf]; exact hq c hc
+  · cases e with
+    | rd i =>
+        cases hsd : s.sd with
+        | none => simp [step, hsd, obsOf] at hc
+        | some m =>
+            simp only [step, hsd, obsOf] at hc ⊢
+            generalize hs1 : ({ s with up := _, sd := some (process m i).1 } : St) = s1 at hc ⊢
+            obtain ⟨h1, h2, _⟩ := applyOuts_spec s1 (process m i).2
+            obtain ⟨_, e2, e3, _⟩ := endDeferralFamilies_spec s1.invalid (relFams (process m i).2) s1.tabs
+            rw [h2, e3] at hc
+            rw [h1, e2, if_pos (mem_flatMap_announce_fam hc)]
+    | _ => exact absurd rfl h
 
 /-- (all states, all events) ... more precisely: a change is emitted either for a family that was not
     deferring before the step, or by the very machine input whose outputs release that family. -/
 theorem change_free_or_released (s : St) (e : Ev) (c : Change) (hc : c ∈ (step s e).2.changes) :
     (s.tabs c.fam).deferring = false ∨
       ∃ i m, e = .rd i ∧ s.sd = some m ∧ c.fam ∈ relFams (process m i).2 := by
-  cases e with
-  | rd i =>
-      cases hsd : s.sd with
-      | none => simp [step, hsd, obsOf] at hc
-      | some m =>
-          simp only [step, hsd, obsOf] at hc
-          obtain ⟨_, h2, _, _⟩ := applyOuts_spec { s with sd := some (process m i).1 } (process m i).2
-          obtain ⟨_, _, e3⟩ := endDeferralFamilies_spec (relFams (process m i).2) s.tabs
-          rw [h2, e3] at hc
-          exact Or.inr ⟨i, m, rfl, rfl, mem_flatMap_announce_fam hc⟩
-  | ins p f n =>
-      left
-      simp only [step, obsOf, insert] at hc
-      by_cases hd : (s.tabs f).deferring = true
-      · simp [hd] at hc
-      · simp only [hd, Bool.false_eq_true, ↓reduceIte, List.mem_singleton] at hc
-        subst hc; simpa using hd
-  | rm p f n =>
-      left
-      simp only [step, obsOf, remove] at hc
-      by_cases hm : (n, p) ∈ (s.tabs f).paths
-      · by_cases hd : (s.tabs f).deferring = true
-        · simp [hm, hd] at hc
-        · simp only [List.contains_iff_mem, hm, ↓reduceIte, hd, Bool.false_eq_true, List.mem_singleton] at hc
-          subst hc; simpa using hd
-      · simp [hm] at hc
-  | drop p f =>
-      left
-      simp only [step, obsOf, dropPeer] at hc
-      by_cases hd : (s.tabs f).deferring = true
-      · simp [hd] at hc
-      · simp only [hd, Bool.false_eq_true, ↓reduceIte, List.mem_map] at hc
-        obtain ⟨n, _, rfl⟩ := hc; simpa using hd
+  by_cases h : isRd e = false
+  · exact Or.inl ((route_event_silent s e h).1 c hc)
+  · cases e with
+    | rd i =>
+        cases hsd : s.sd with
+        | none => simp [step, hsd, obsOf] at hc
+        | some m =>
+            simp only [step, hsd, obsOf] at hc
+            generalize hs1 : ({ s with up := _, sd := some (process m i).1 } : St) = s1 at hc
+            obtain ⟨_, h2, _⟩ := applyOuts_spec s1 (process m i).2
+            obtain ⟨_, _, e3, _⟩ := endDeferralFamilies_spec s1.invalid (relFams (process m i).2) s1.tabs
+            rw [h2, e3] at hc
+            exact Or.inr ⟨i, m, rfl, rfl, mem_flatMap_announce_fam hc⟩
+    | _ => exact absurd rfl h
+
+/-- non-vacuity: helper 0 has sent a route, establishes, and its session ends by an I/O error while
+    families 0 and 1 are deferred (`gdown`: the routes are kept, marked stale); nothing is distributed at
+    that step; the later `wd` releases family 0 and announces the (stale) route once; next-hop
+    invalidation and LLGR marking then hit the released family 0 (distributed) and the still deferred
+    family 1 (silent) -/
+def exHelperEvs : List Ev :=
+  [.ins 0 0 0, .ins 0 1 1, .rd (.est 0 [0, 1]), .gdown 0, .rd (.wd 0), .nhv 0 false, .llgr 0 0, .stale 1 1,
+   .rd (.est 1 [1]), .purge 0 1, .rd (.eor 1 1)]
+example : InDomain exCfg exHelperEvs = true := by decide
+example : (run exCfg exHelperEvs).map (fun o => o.changes.map (fun c => (c.fam, c.pfx, c.peers))) =
+    [[], [], [], [], [], [(0, 0, [0])], [(0, 0, [])], [(0, 0, [])], [], [], [], []] := by decide
+/-- ... and the checker refuses a change distributed for a deferred family at the `gdown` step (what
+    `Table::restale` without its deferral guard does) -/
+example : Spec.check exCfg exHelperEvs
+    (mapNth 4 (fun o => { o with changes := [{ fam := 0, pfx := 0, peers := [0] }] }) (run exCfg exHelperEvs))
+    = .fail 4 "change-while-deferred" := by decide
 
 /-! ## 2. `family_complete_iff`: a family is released exactly when its last pending helper goes -/
 
@@ -215,8 +222,10 @@ theorem release_clears_flag (s : St) (m : RInner) (i : RIn) (hs : s.sd = some m)
     ((step s (.rd i)).1.tabs f).deferring =
       (if f ∈ relFams (process m i).2 then false else (s.tabs f).deferring) := by
   simp only [step, hs]
-  obtain ⟨h1, _, _, _⟩ := applyOuts_spec { s with sd := some (process m i).1 } (process m i).2
-  rw [h1, (endDeferralFamilies_spec _ _).2.1]
+  generalize hs1 : ({ s with up := _, sd := some (process m i).1 } : St) = s1
+  have ht : s1.tabs = s.tabs := by rw [← hs1]
+  obtain ⟨h1, _⟩ := applyOuts_spec s1 (process m i).2
+  rw [h1, (endDeferralFamilies_spec _ _ _).2.1, ht]
 
 /-! ## 3. `timer_ends_all` -/
 
@@ -259,19 +268,23 @@ example : (stateAfter exCfg (exTimerEvs.take 3)).sd.isSome = true ∧
 /-! ## 4. `release_exactly_held`: the release announces exactly the prefixes held, once each -/
 
 /-- When an in-domain step releases family `f`, the changes it distributes for `f` are
-    `announce f paths`: one change per prefix that has a path (`prefixes` is duplicate-free), each
-    carrying exactly the paths present, and nothing else for `f`. -/
+    `announce f paths` over the paths whose next hop is reachable: one change per prefix that has
+    such a path (`prefixes` is duplicate-free), each carrying exactly those paths, and nothing else
+    for `f`. -/
 theorem release_exactly_held (cfg : Cfg) (evs : List Ev) (h : InDomain cfg evs = true) (i : RIn)
     (hi : wf cfg (refAfterFrom cfg (Spec.init cfg) evs) (.rd i) = true) (m : RInner)
     (hm : (stateAfter cfg evs).sd = some m) (f : Fam) (hf : f ∈ relFams (process m i).2) :
     (step (stateAfter cfg evs) (.rd i)).2.changes.filter (·.fam = f) =
-      announce f ((stateAfter cfg evs).tabs f).paths := by
+      announce f (usable (stateAfter cfg evs).invalid ((stateAfter cfg evs).tabs f).paths) := by
   have hr := rel_after cfg evs h
   obtain ⟨_, hw, hne, _, _⟩ := hr.sd_some m hm
   have sp := process_spec m i hw (fun _ => hne) (inputOk_of_wf hr hm hi)
   simp only [step, hm, obsOf]
-  obtain ⟨_, h2, _, _⟩ := applyOuts_spec { stateAfter cfg evs with sd := some (process m i).1 } (process m i).2
-  rw [h2, (endDeferralFamilies_spec _ _).2.2, filter_flatMap_announce sp.rel_nodup, if_pos hf]
+  generalize hs1 : ({ stateAfter cfg evs with up := _, sd := some (process m i).1 } : St) = s1
+  have ht : s1.tabs = (stateAfter cfg evs).tabs ∧ s1.invalid = (stateAfter cfg evs).invalid := by
+    rw [← hs1]; exact ⟨rfl, rfl⟩
+  obtain ⟨_, h2, _⟩ := applyOuts_spec s1 (process m i).2
+  rw [h2, (endDeferralFamilies_spec _ _ _).2.2.1, filter_flatMap_announce sp.rel_nodup, if_pos hf, ht.1, ht.2]
 
 theorem announce_once (f : Fam) (paths : List (Nat × Peer)) :
     ((announce f paths).map (·.pfx)).Nodup ∧
@@ -447,42 +460,35 @@ theorem releases_nodup_from (cfg : Cfg) (evs : List Ev) (s : St) (r : R) (hr : R
       -- the families released by this step
       have key : (relFams (step s e).2.outs).Nodup ∧
           ∀ f ∈ relFams (step s e).2.outs, held r f = true ∧ holds f (next r e).waiting = false := by
-        cases e with
-        | rd i =>
-            cases hsd : s.sd with
-            | none => simp [step, hsd, obsOf, relFams, completeFamilies, endRemaining]
-            | some m =>
-                obtain ⟨_, hw, hne, hp, _⟩ := hr.sd_some m hsd
-                have sp := process_spec m i hw (fun _ => hne) (inputOk_of_wf hr hsd h.1)
-                simp only [step, hsd, obsOf]
-                refine ⟨sp.rel_nodup, fun f hf => ?_⟩
-                have hp' : ∀ x, x ∈ pairs (pendingOf (process m i).1) ↔ x ∈ (next r (.rd i)).waiting := by
-                  intro x; rw [sp.pairs, next_waiting]; exact nextW_congr hp i x
-                have := (sp.rel_mem f).mp hf
-                rw [holdsP_iff_holds hp, holdsP_iff_holds hp', ← hr.held_iff] at this
-                exact ⟨this.1, by simpa using this.2⟩
-        | ins p f n => simp [step, obsOf, relFams, completeFamilies, endRemaining]
-        | rm p f n => simp [step, obsOf, relFams, completeFamilies, endRemaining]
-        | drop p f => simp [step, obsOf, relFams, completeFamilies, endRemaining]
-      have hsubw : ∀ x, x ∈ (next r e).waiting → x ∈ r.waiting := by
-        intro x hx
-        cases e with
-        | rd i => rw [next_waiting] at hx; exact nextW_sub hx
-        | ins p f n => simp only [next] at hx; split at hx <;> exact hx
-        | rm p f n => exact hx
-        | drop p f => exact hx
-      have hdef : (next r e).deferred = r.deferred := by
-        cases e with
-        | rd i => exact next_rd_deferred r i
-        | ins p f n => simp only [next]; split <;> rfl
-        | rm p f n => rfl
-        | drop p f => rfl
-      have hrl : (next r e).released = r.released := by
-        cases e with
-        | rd i => exact next_rd_released r i
-        | ins p f n => simp only [next]; split <;> rfl
-        | rm p f n => rfl
-        | drop p f => rfl
+        by_cases hrd : isRd e = false
+        · have := (route_event_silent s e hrd).2.2.1
+          rw [this]; simp [relFams, completeFamilies, endRemaining]
+        · cases e with
+          | rd i =>
+              cases hsd : s.sd with
+              | none => simp [step, hsd, obsOf, relFams, completeFamilies, endRemaining]
+              | some m =>
+                  obtain ⟨_, hw, hne, hp, _⟩ := hr.sd_some m hsd
+                  have sp := process_spec m i hw (fun _ => hne) (inputOk_of_wf hr hsd h.1)
+                  simp only [step, hsd, obsOf]
+                  refine ⟨sp.rel_nodup, fun f hf => ?_⟩
+                  have hp' : ∀ x, x ∈ pairs (pendingOf (process m i).1) ↔ x ∈ (next r (.rd i)).waiting := by
+                    intro x; rw [sp.pairs, next_waiting]; exact nextW_congr hp i x
+                  have := (sp.rel_mem f).mp hf
+                  rw [holdsP_iff_holds hp, holdsP_iff_holds hp', ← hr.held_iff] at this
+                  exact ⟨this.1, by simpa using this.2⟩
+          | _ => exact absurd rfl hrd
+      have hctl : (∀ x, x ∈ (next r e).waiting → x ∈ r.waiting) ∧ (next r e).deferred = r.deferred ∧
+          (next r e).released = r.released := by
+        by_cases hrd : isRd e = false
+        · have c := next_ctl r e hrd
+          exact ⟨fun x hx => c.waiting ▸ hx, c.deferred, c.released⟩
+        · cases e with
+          | rd i =>
+              exact ⟨fun x hx => by rw [next_waiting] at hx; exact nextW_sub hx, next_rd_deferred r i,
+                next_rd_released r i⟩
+          | _ => exact absurd rfl hrd
+      obtain ⟨hsubw, hdef, hrl⟩ := hctl
       apply ih _ _ hrel h.2
       · rw [List.nodup_append]
         refine ⟨hacc, key.1, fun a ha b hb hab => ?_⟩
